@@ -120,36 +120,6 @@ def _pair_classes(stmts, k, a):
     return cl
 
 
-def _align(stmts, others):
-    """For every snapshot statement the index of its counterpart in ``others`` = [(bound name | None, rhs key)] or None.
-    A bound statement corresponds to the statement binding the same name (names are unique in a test case) or, if that name
-    is bound nowhere, to the next not yet used *unbound* statement with the same right-hand side (the binding was removed)."""
-    from vlib import genfiles
-
-    by_name = {b: j for j, (b, _) in enumerate(others) if b is not None}
-    used, out, pos = set(), [], 0
-    for s in stmts:
-        key = genfiles.code_rhs_key(s["code"])
-        j = by_name.get(s["bound"]) if s["bound"] else None
-        if j is None:
-            j = next((i for i in range(pos, len(others)) if i not in used and others[i][0] is None and others[i][1] == key), None)
-        elif others[j][1] != key:
-            j = None
-        if j is not None:
-            used.add(j)
-            pos = max(pos, j + 1)
-        out.append(j)
-    return out
-
-
-def _bound_of(node):
-    from vlib import genfiles
-
-    if isinstance(node, ast.Assign) and len(node.targets) == 1 and isinstance(node.targets[0], ast.Name) and genfiles.VAR_RE.match(node.targets[0].id):
-        return node.targets[0].id
-    return None
-
-
 def _trivial_literal(code):
     """`var_N = <literal / name>`: an unused primitive whose removal (with its tautological assertion) is the declared job of the
     unused-statement pass."""
@@ -265,7 +235,7 @@ def check_run(ctx, r):
                                     f"{r['tag']}: `{a['code']}` on `{s['code']}` was stripped by remove_unused_variables ({caller}); the test case was then removed",
                                     {**case_info, "tid": t["tid"], "statement": s["code"], "assertion": a, "step": caller, "then": "test case removed"})
             continue
-        align = _align(t["stmts"], [(s["bound"], genfiles.code_rhs_key(s["code"])) for s in tx["stmts"]])
+        align = genfiles.align_statements(t["stmts"], [(s["bound"], genfiles.code_rhs_key(s["code"])) for s in tx["stmts"]])
         for k, s in enumerate(t["stmts"]):
             key = genfiles.code_rhs_key(s["code"])
             j = align[k]
@@ -324,7 +294,7 @@ def check_run(ctx, r):
         xfail = genfiles.is_xfail_decorated(fn)
         if len(stmt_groups) != len(t["stmts"]):
             ctx.anomaly("exported-function-statement-count-differs")
-        align = _align(t["stmts"], [(_bound_of(g[1]), genfiles.rhs_key(g[1])) for g in stmt_groups])
+        align = genfiles.align_statements(t["stmts"], [(genfiles.bound_of(g[1]), genfiles.rhs_key(g[1])) for g in stmt_groups])
         for k, s in enumerate(t["stmts"]):
             key = genfiles.code_rhs_key(s["code"])
             j = align[k]
